@@ -976,7 +976,8 @@ where
     /// # Errors
     /// Fails because of any IO errors.
     pub async fn fsyncdata(&self) -> IOResult<()> {
-        self.inner.fsyncdata().await
+        // explicit request: always sync (the dirty bytes threshold applies to background syncs only)
+        self.inner.safe.read().await.fsyncdata().await
     }
 
     /// Force updates active blob on new one to dump index of old one on disk and free RAM.
